@@ -80,6 +80,13 @@ func c12Specs() []*bfsSpec {
 		_, _ = honest, hostile
 		specs = append(specs, &bfsSpec{Name: fmt.Sprintf("c12-size%d", size), Cfg: cfg, Alphabet: alpha, Depth: 3, DepthT: 4, Live: metadataLiveness})
 	}
+	// authentic but degenerate dictionaries: the magnet names their hash, honest
+	// peers deliver them; they must never make the torrent usable, nor crash it
+	for _, kind := range []string{"zero-piece-length", "odd-piece-length", "short-pieces", "long-pieces", "odd-pieces", "no-name", "neg-file", "wrap-files", "not-a-dict", "huge-length"} {
+		cfg := worldCfg{Geom: "gtail", Magnet: true, AutoDrain: true, InfoKind: kind}
+		specs = append(specs, &bfsSpec{Name: "c12-degenerate-" + kind, Cfg: cfg,
+			Alphabet: []string{"mtick", "manswer:1", "manswer:2", "mdata:1:0:true:true:tail", "mdata:0:0:forged:true:tail", "close:1", "want:0:1", "tick"}, Depth: 4, DepthT: 5})
+	}
 	return specs
 }
 
